@@ -51,13 +51,13 @@ package cache
 //@   && wrap64s(tinst(t.ts)) > 0 && Sat64(n.Timestamp - tinst(t.ts)) > t.futureThreshold
 
 //@ func joinPrefixAndPath
-//@   props C02 C03 C12 C19
+//@   props C02 C03 C12 C19 C01
 //@   requires pr != nil && pr.Target != ""
 //@   ensures view(res0) == sub(idxpath(pr, true) ++ idxpath(ph, false), 1, len(idxpath(pr, true)) + len(idxpath(ph, false)))
 //@   ensures res0 != nil && fresh(res0)
 
 //@ func (*Target).gnmiUpdate
-//@   props C02 C03 C12 C14 C15
+//@   props C02 C03 C12 C14 C15 C01
 //@   requires TargetWf(t) && NotiWf(n) && len(n.Update) >= 1 && n.Prefix != nil && n.Prefix.Target != "" && StoredWf(t) && CountersRegistered() && AllTVWf()
 //@   modifies ghost tstore, ghost treal, ghost intAdded, heap(ctree.Tree.leafBranch), t.sync
 //@   effect owed := ite(res0 != nil, owed ++ unit(res0), owed)
@@ -94,7 +94,7 @@ package cache
 // writing to anything that existed before (in particular not to the stored
 // notification's own path slices, which callers may share between messages).
 //@ func toDeleteNotification
-//@   props C03 C12
+//@   props C03 C12 C01
 //@   requires NotiWf(n) && len(n.Update) >= 1
 //@   ensures fresh(res0) && res0 != nil && res0.Timestamp == timestamp && res0.Prefix != nil && fresh(res0.Prefix)
 //@   ensures len(res0.Delete) == 1 && res0.Delete[0] != nil && len(res0.Update) == 0
@@ -120,7 +120,7 @@ package cache
 //@   maintains forall i int :: 0 <= i && i < len(leaves) ==> leaves[i] != nil
 
 //@ func (*Target).gnmiRemove
-//@   props C02 C03 C12 C14 C15
+//@   props C02 C03 C12 C14 C15 C01
 //@   requires TargetWf(t) && NotiWf(n) && len(n.Delete) >= 1 && n.Prefix != nil && n.Prefix.Target != "" && StoredWf(t) && CountersRegistered()
 //@   modifies ghost tstore, ghost treal, ghost intAdded, ghost resetDone
 //@   effect owed := owed ++ view(res0)
@@ -181,7 +181,7 @@ package cache
 //@ pred Single(n *pb.Notification) := !n.Atomic && len(n.Update) == 1 && len(n.Delete) == 0
 
 //@ func (*Target).GnmiUpdate
-//@   props C03 C12 C14 C15 C02
+//@   props C03 C12 C14 C15 C02 C01
 //@   requires TargetWf(t) && NotiWf(n) && n.Prefix != nil && n.Prefix.Target != "" && StoredWf(t) && CountersRegistered() && AllTVWf()
 //@   requires len(owed) == 0 && Unstored(n)
 //@   modifies ghost tstore, ghost treal, ghost intAdded, ghost owed, ghost tsSeen, ghost updSteps, ghost delSteps, ghost wiped, ghost resetDone, heap(ctree.Tree.leafBranch), t.sync, t.ts, n.Update, n.Delete
@@ -379,7 +379,7 @@ package cache
 //@   ensures [only-this-target-announced C14] forall s string :: s != target ==> wiped[s] == old(wiped[s])
 
 //@ func (*Cache).GnmiUpdate
-//@   props C14 C03 C12
+//@   props C14 C03 C12 C01
 //@   locks c
 //@   requires c != nil && Globals() && len(owed) == 0 && (n != nil ==> NotiWf(n) && Unstored(n))
 //@   modifies ghost tstore, ghost treal, ghost intAdded, ghost owed, ghost tsSeen, ghost updSteps, ghost delSteps, ghost wiped, ghost resetDone, heap(ctree.Tree.leafBranch), heap(Target.sync), heap(Target.ts), n.Update, n.Delete
